@@ -14,6 +14,8 @@ CLAUSE = ("vbi_teletext_desync marks the page in progress of every one of the ra
           "and the lop_packets bit are dominated by `n >= 0` where n OR-accumulates vbi_unpar8 over all 40 bytes of the row; the "
           "set of X/26 column modes whose Level 1 byte is exempted from the parity gate is the confirmed set; an uncorrectable "
           "X/26 triplet ends the packet (the error edge cannot reach the next iteration).")
+CLAUSE = CLAUSE + (" An unchecked decode result is not handed to another function either, unless that function tests the "
+                   "parameter for `< 0` before every other use (parse_mip_page's code).")
 NOT_DECIDED = ("that a single-bit error is corrected to the sent value (Hamming arithmetic, test-hamm's domain); display of the "
                "formatted page; X/26 designation continuity semantics beyond the error edge.")
 
@@ -52,6 +54,17 @@ def run(ctx, run):
             run.violation("RF-NEG", "RF-NEG:%s:shift" % f.name, "`%s` left-shifts a decode result that may be -1 (undefined in ISO C; "
                           "UBSan: left shift of negative value): %s" % (ex.pretty(f, node)[:70], a.describe(t)[:200]), ex.loc(f, node),
                           witness={"function": f.name, "expr": ex.pretty(f, node)})
+        for call, k, t in neg.call_arg_sinks(a):
+            key = "RF-NEG:%s:arg:%s" % (f.name, f.exprs[call].get("callee"))
+            if neg.callee_tests_param(ctx, f, call, k):
+                run.holds("RF-NEG", key, "`%s` hands the callee an unchecked decode result; the callee tests that parameter for "
+                          "`< 0` before every other use" % ex.pretty(f, call)[:70], ex.loc(f, call))
+                continue
+            bad = True
+            run.violation("RF-NEG", key, "`%s` hands %s() a decode result that may be -1 (uncorrectable byte) and the callee does not "
+                          "test it: the damaged packet is processed as if it carried that value: %s"
+                          % (ex.pretty(f, call)[:80], f.exprs[call].get("callee"), a.describe(t)[:200]), ex.loc(f, call),
+                          witness={"function": f.name, "call": ex.pretty(f, call), "argument": k})
         for eid, name in neg.unexamined(a):
             bad = True
             run.violation("RF-NEG", "RF-NEG:%s:unexamined:%s" % (f.name, name), "the value decoded by `%s` can reach a successful "
